@@ -187,11 +187,7 @@ def gen_shell_base(rng, mode=None, ml=None, nfiles=None, max_frags=14,
     for i in range(nfiles):
         name = rng.choice(['main', 'ch', 'part', 'sec']) + str(i) + '.tex'
         frags = docgen.gen_document(rng, n_frags=rng.randrange(1, max_frags),
-                                    ml=ml, lang=lang, W=W)
-        if ml and not any(f.get('foreign') for f in frags):
-            # a multi-language run should have at least two parts
-            frags.insert(rng.randrange(len(frags) + 1),
-                         docgen.f_foreign_long(rng, W, {'lang': lang}))
+                                    ml=ml, lang=lang, W=W, ensure_foreign=True)
         files[name] = {'frags': frags}
         names.append(name)
         lit = docgen.literal_words(frags)
